@@ -55,7 +55,7 @@ def _gen0(rng, tier):
 
 
 def gen(rng, tier):
-    return G.with_layouts(rng, _gen0(rng, tier), p_alt=0.1)
+    return G.with_decoys(rng, G.with_layouts(rng, _gen0(rng, tier), p_alt=0.1))
 
 
 def corpus():
@@ -93,6 +93,10 @@ def impl(case):
     import msmhelper as mh
     from implutil import build, tolists
     data = build(case['form'], case['trajs'], case.get('dtypes'), case.get('layout'))
+    if case.get('decoy'):
+        from implutil import reused_container
+        alt = reused_container(case['form'], case['decoy'], case['trajs'], case.get('dtypes'), lambda c: mh.md.dynamical_coring(c, case['lag'], iterative=case['iter']))
+        data = data if alt is None else alt
     for tau, it in case.get('pre', []):       # earlier calls on the SAME object must not change later results
         try:
             mh.md.dynamical_coring(data, tau, iterative=it)
